@@ -324,8 +324,8 @@ func makeDataPlane(runConfig RunConfig, authSCMP bool) dataPlane {
 		underlays: map[string]UnderlayProvider{
 			"udpip": underlayProviders["udpip"](
 				runConfig.BatchSize,
-				runConfig.SendBufferSize,
 				runConfig.ReceiveBufferSize,
+				runConfig.SendBufferSize,
 			),
 		},
 		Metrics:                        metrics,
@@ -476,8 +476,8 @@ func (d *dataPlane) AddExternalInterface(
 		}
 		underlay = underlayProvider(
 			d.RunConfig.BatchSize,
-			d.RunConfig.SendBufferSize,
 			d.RunConfig.ReceiveBufferSize,
+			d.RunConfig.SendBufferSize,
 		)
 		d.underlays[link.Provider] = underlay
 	}
@@ -622,8 +622,8 @@ func (d *dataPlane) AddNextHop(
 		}
 		underlay = underlayProvider(
 			d.RunConfig.BatchSize,
-			d.RunConfig.SendBufferSize,
 			d.RunConfig.ReceiveBufferSize,
+			d.RunConfig.SendBufferSize,
 		)
 		d.underlays[link.Provider] = underlay
 	}
